@@ -26,7 +26,7 @@ G1 = "start::Pair: l:'a' r:'b' | c:'c' ;\n"
 G2 = "start::Pair::Base: x:'a' ;\n"
 G3 = "@@ignorecase :: False\n\nstart: {word}+ $ ;\n\nword::Word: /[a-c]+/ ;\n"
 G4 = "start: host:'h' port:'p' c:`{host}:{port}` ;\n"
-G5 = "start: x:'z' reply:`pong {port}` len:`len(x)` ;\n"
+G5 = "start: x:'z' reply:`pong {port}` n:`len(x)` ;\n"
 
 
 class Tag:
